@@ -6,9 +6,9 @@
 set -u
 export GOFLAGS=-mod=mod GOPROXY=off GOSUMDB=off GOTOOLCHAIN=local
 ID=$1; shift
-W=/tmp/seed/$ID
+W=${SEEDBASE:-/tmp/seed}/$ID
 [ -f "$W/SEED/patch.diff" ] || { echo "no patch for $ID"; exit 2; }
-OUT=/verif/seeded/$ID
+OUT=/verif/seeded/$ID${SUFFIX:-}
 mkdir -p "$OUT"
 testlist() { (cd "$1" && go test -vet=off -count=1 -json ./... 2>/dev/null | python3 -c '
 import sys,json
@@ -41,8 +41,8 @@ echo "demo on original: exit $D0"
 git apply "$OUT/patch.diff" || { echo "patch does not apply"; exit 2; }
 go build ./... ; B=$?
 echo "build with patch: exit $B"
-testlist "$W" > /tmp/seed/$ID.tests.txt
-stable /tmp/seed/$ID.tests.txt | tee "$OUT/tests.log"; T=${PIPESTATUS[0]}
+testlist "$W" > ${SEEDBASE:-/tmp/seed}/$ID.tests.txt
+stable ${SEEDBASE:-/tmp/seed}/$ID.tests.txt | tee "$OUT/tests.log"; T=${PIPESTATUS[0]}
 bash "$OUT/demo.sh" "$W" >"$OUT/demo.patched.log" 2>&1; D1=$?
 echo "demo on patched: exit $D1"
 # now my checks against /repo with the patch applied
